@@ -45,3 +45,41 @@ theorem chunkPages_acc (file : Array Nat) : ∀ (fuel pos stop : Nat) (acc ps : 
           · exact hall q hq'
 
 end PqV.Spec
+
+namespace PqV.Spec
+
+/-- what one accepted page adds: a dictionary page no rows; a data page exactly `num_values` rows -/
+theorem decodePage_count (leaf : Leaf) (acc acc' : PageAcc) (p : PageInfo) (body : List Nat)
+    (h : decodePage leaf acc p body = .ok acc') :
+    acc'.count = acc.count + (if p.ptypeTag = 2 then 0 else p.numValues) := by
+  unfold decodePage at h
+  simp only at h
+  by_cases h2 : p.ptypeTag = 2
+  · simp only [h2, if_true] at h
+    repeat' (first | (injection h with h; subst h; simp [h2]; done) | (simp at h; done) | split at h)
+  · simp only [h2, if_false] at h
+    repeat' (first | (injection h with h; subst h; simp [h2]; done) | (simp at h; done) | split at h)
+
+/-- **value counts add up**: the row count the validator reports for a chunk is the sum of `num_values` over its data pages -/
+theorem decodePages_count (leaf : Leaf) : ∀ (pages : List (PageInfo × List Nat)) (acc acc' : PageAcc),
+    decodePages leaf acc pages = .ok acc' →
+    acc'.count = acc.count + ((pages.filter (fun x => x.1.ptypeTag != 2)).map (fun x => x.1.numValues)).sum := by
+  intro pages
+  induction pages with
+  | nil => intro acc acc' h; simp only [decodePages] at h; injection h with h; subst h; simp
+  | cons x xs ih =>
+    intro acc acc' h
+    obtain ⟨p, body⟩ := x
+    simp only [decodePages] at h
+    cases hp : decodePage leaf acc p body with
+    | error e => simp [hp] at h
+    | ok a1 =>
+      simp only [hp] at h
+      have h1 := decodePage_count leaf acc a1 p body hp
+      have h2 := ih a1 acc' h
+      rw [h2, h1]
+      by_cases ht : p.ptypeTag = 2
+      · simp [ht, List.filter_cons]
+      · simp [ht, List.filter_cons]; omega
+
+end PqV.Spec
